@@ -10,6 +10,7 @@ def main(n=None, only=None):
     exe, msg, stale = F.step_driver('C09', 'Extract/DrvC09.v')
     print('driver', msg)
     ctx = F.Ctx('C09', os.environ.get('VERIF_TIER', 'quick'), int(os.environ.get('VERIF_SEED', '0')), F.Driver(exe))
+    ctx.keep_all = True
     h = importlib.import_module('tools.harness.c09')
     cases = h.gen(ctx)
     if only: cases = [c for c in cases if c[0] == only]
@@ -32,9 +33,18 @@ def main(n=None, only=None):
                 for vi in range(3):
                     if r['impl'][vi] != r['model'][vi] or (r['in_domain'] and r['impl'][vi] != r['spec'][vi]):
                         print(' view', vi)
-                        print('  impl ', str(r['impl'][vi])[:1500])
-                        print('  model', str(r['model'][vi])[:1500])
-                        if r['in_domain']: print('  spec ', str(r['spec'][vi])[:1500])
+                        I, M, S = r['impl'][vi], r['model'][vi], r['spec'][vi]
+                        if isinstance(I, list) and isinstance(M, list) and len(I) == len(M) and (not r['in_domain'] or len(S) == len(I)) and I[0] not in ('ok','err'):
+                            for ci in range(len(I)):
+                                if I[ci] != M[ci] or (r['in_domain'] and I[ci] != S[ci]):
+                                    print('  comp', ci)
+                                    print('   impl ', str(I[ci])[:700])
+                                    print('   model', str(M[ci])[:700])
+                                    if r['in_domain']: print('   spec ', str(S[ci])[:700])
+                        else:
+                            print('  impl ', str(I)[:700])
+                            print('  model', str(M)[:700])
+                            if r['in_domain']: print('  spec ', str(S)[:700])
     for k, v in sorted(stats.items()): print(v, k)
     print(json.dumps(ctx.hist.get('in_domain')), json.dumps(ctx.hist.get('malformed')))
 if __name__ == '__main__':
